@@ -104,6 +104,13 @@ def run_group(group, scratch, tier):
     if os.path.exists(work):
         shutil.rmtree(work)
     shutil.copytree(src, work, ignore=shutil.ignore_patterns('target'))
+    ct = os.path.join(work, 'Cargo.toml')
+    with open(ct) as f:
+        txt = f.read()
+    with open(ct, 'w') as f:
+        f.write(txt.replace('"/repo/', '"%s/' % REPO.rstrip('/')))
+    if group.get('generate'):
+        group['generate'](work)
     lock = os.path.join(REPO, 'Cargo.lock')
     if os.path.exists(lock):
         shutil.copy(lock, os.path.join(work, 'Cargo.lock'))
